@@ -55,6 +55,23 @@ u32 gcry_mpi_scan(gcry_mpi_t *ret, int fmt, const void *buffer, size_t buflen, s
     n = ((((size_t)p[0]) << 8 | p[1]) + 7) / 8;
     if (n + 2 > buflen) return mk_err(GPG_ERR_TOO_SHORT);
     p += 2;
+  } else if (fmt == FMT_HEX) {
+    /* libgcrypt manual / mpicoder.c: NUL-terminated string (buflen must be 0), optional '-', optional "0x", hex digits of either
+       case, an odd number of digits is fine; anything else is GPG_ERR_INV_OBJ */
+    const char *h = buffer; int neg = 0; size_t nd = 0, j; u8 tmp[VF_MPI_BYTES]; size_t nb;
+    if (buflen) return mk_err(GPG_ERR_INV_ARG);
+    if (*h == '-') { neg = 1; ++h; }
+    if (h[0] == '0' && h[1] == 'x') h += 2;
+    while (h[nd]) { char c = h[nd]; if (!((c >= '0' && c <= '9') || (c >= 'a' && c <= 'f') || (c >= 'A' && c <= 'F'))) return mk_err(GPG_ERR_INV_OBJ); ++nd; if (nd > 2 * VF_MPI_BYTES + 2) MBOUND(); }
+    while (nd > 0 && *h == '0') { ++h; --nd; }
+    nb = (nd + 1) / 2; if (nb > VF_MPI_BYTES) MBOUND();
+    for (j = 0; j < nb; ++j) tmp[j] = 0;
+    for (j = 0; j < nd; ++j) { char c = h[j]; u8 d = (u8)(c <= '9' ? c - '0' : (c >= 'a' ? c - 'a' + 10 : c - 'A' + 10)); size_t bitpos = nd - 1 - j; tmp[nb - 1 - bitpos / 2] |= (u8)(d << (4 * (bitpos & 1))); }
+    a = mpi_alloc(); a->nbytes = (u32)nb; a->neg = nb ? neg : 0;
+    for (j = 0; j < nb; ++j) a->m[j] = tmp[j];
+    if (nscanned) *nscanned = 0;
+    if (ret) *ret = a; else free(a);
+    return 0;
   } else if (fmt != FMT_USG) MUNSUP("gcry_mpi_scan format");
   while (skip < n && p[skip] == 0) ++skip;
   if (n - skip > VF_MPI_BYTES) MBOUND();
@@ -66,6 +83,20 @@ u32 gcry_mpi_scan(gcry_mpi_t *ret, int fmt, const void *buffer, size_t buflen, s
 }
 u32 gcry_mpi_print(int fmt, unsigned char *buffer, size_t buflen, size_t *nwritten, const gcry_mpi_t a) {
   size_t n = a->nbytes, i;
+  if (fmt == FMT_HEX) {
+    /* mpicoder.c: "-" if negative, "00" if the value is zero or its top bit is set, two upper-case digits per byte, NUL; nwritten counts the NUL */
+    size_t extra = (!n || (a->m[0] & 0x80)) ? 2 : 0, len = 2 * n + extra + (a->neg ? 1 : 0) + 1; unsigned char *s_ = buffer;
+    static const char hx[] = "0123456789ABCDEF";
+    if (buffer) {
+      if (len > buflen) return mk_err(GPG_ERR_TOO_SHORT);
+      if (a->neg) *s_++ = '-';
+      if (extra) { *s_++ = '0'; *s_++ = '0'; }
+      for (i = 0; i < n; ++i) { *s_++ = (unsigned char)hx[a->m[i] >> 4]; *s_++ = (unsigned char)hx[a->m[i] & 15]; }
+      *s_++ = 0;
+    }
+    if (nwritten) *nwritten = len;
+    return 0;
+  }
   if (a->neg) return mk_err(GPG_ERR_INV_ARG);
   if (fmt == FMT_PGP) {
     unsigned nbits = gcry_mpi_get_nbits(a);
